@@ -13,7 +13,7 @@ import (
 	"strings"
 )
 
-func encValue(v interface{}, out []string) []string {
+func c05EncValue(v interface{}, out []string) []string {
 	switch x := v.(type) {
 	case nil:
 		return append(out, "n")
@@ -35,7 +35,7 @@ func encValue(v interface{}, out []string) []string {
 	case []interface{}:
 		out = append(out, "L:"+strconv.Itoa(len(x)))
 		for _, e := range x {
-			out = encValue(e, out)
+			out = c05EncValue(e, out)
 		}
 		return out
 	case map[string]interface{}:
@@ -47,13 +47,13 @@ func encValue(v interface{}, out []string) []string {
 		out = append(out, "M:"+strconv.Itoa(len(x)))
 		for _, k := range keys {
 			out = append(out, hx(k))
-			out = encValue(x[k], out)
+			out = c05EncValue(x[k], out)
 		}
 		return out
 	case []map[string]interface{}:
 		out = append(out, "L:"+strconv.Itoa(len(x)))
 		for _, e := range x {
-			out = encValue(e, out)
+			out = c05EncValue(e, out)
 		}
 		return out
 	default:
@@ -61,11 +61,11 @@ func encValue(v interface{}, out []string) []string {
 	}
 }
 
-func encRow(r map[string]interface{}) []string { return encValue(r, nil) }
+func c05EncRow(r map[string]interface{}) []string { return c05EncValue(r, nil) }
 
-func decValue(t []string) (interface{}, []string) {
+func c05DecValue(t []string) (interface{}, []string) {
 	if len(t) == 0 {
-		panic("decValue: out of tokens")
+		panic("c05DecValue: out of tokens")
 	}
 	h, rest := t[0], t[1:]
 	switch {
@@ -94,7 +94,7 @@ func decValue(t []string) (interface{}, []string) {
 		l := make([]interface{}, 0, k)
 		for i := 0; i < k; i++ {
 			var v interface{}
-			v, rest = decValue(rest)
+			v, rest = c05DecValue(rest)
 			l = append(l, v)
 		}
 		return l, rest
@@ -104,66 +104,66 @@ func decValue(t []string) (interface{}, []string) {
 		for i := 0; i < k; i++ {
 			key := unhx(rest[0])
 			var v interface{}
-			v, rest = decValue(rest[1:])
+			v, rest = c05DecValue(rest[1:])
 			m[key] = v
 		}
 		return m, rest
 	}
-	panic("decValue: bad token " + h)
+	panic("c05DecValue: bad token " + h)
 }
 
-func decRow(t []string) map[string]interface{} {
-	v, rest := decValue(t)
+func c05DecRow(t []string) map[string]interface{} {
+	v, rest := c05DecValue(t)
 	m, ok := v.(map[string]interface{})
 	if !ok || len(rest) != 0 {
-		panic("decRow: not a single map")
+		panic("c05DecRow: not a single map")
 	}
 	return m
 }
 
-func deepCopy(v interface{}) interface{} {
+func c05DeepCopy(v interface{}) interface{} {
 	switch x := v.(type) {
 	case []interface{}:
 		l := make([]interface{}, len(x))
 		for i, e := range x {
-			l[i] = deepCopy(e)
+			l[i] = c05DeepCopy(e)
 		}
 		return l
 	case map[string]interface{}:
 		m := make(map[string]interface{}, len(x))
 		for k, e := range x {
-			m[k] = deepCopy(e)
+			m[k] = c05DeepCopy(e)
 		}
 		return m
 	}
 	return v
 }
 
-func copyRow(r map[string]interface{}) map[string]interface{} {
-	return deepCopy(r).(map[string]interface{})
+func c05CopyRow(r map[string]interface{}) map[string]interface{} {
+	return c05DeepCopy(r).(map[string]interface{})
 }
 
 // ---------------------------------------------------------------- SELECT items
 
-type pSub struct {
+type c05PSub struct {
 	isIdx bool
 	idx   int64
 	key   string
 }
-type pComp struct {
+type c05PComp struct {
 	name string
-	subs []pSub
+	subs []c05PSub
 }
-type pItem struct {
+type c05PItem struct {
 	kind     string // star | path | bq | lit
-	comps    []pComp
+	comps    []c05PComp
 	text     string // bq name or literal content
 	alias    string
 	hasAlias bool
 	aliasBq  bool
 }
 
-func (c pComp) sql() string {
+func (c c05PComp) sql() string {
 	var sb strings.Builder
 	sb.WriteString(c.name)
 	for _, s := range c.subs {
@@ -176,7 +176,7 @@ func (c pComp) sql() string {
 	return sb.String()
 }
 
-func (it pItem) srcSQL() string {
+func (it c05PItem) srcSQL() string {
 	switch it.kind {
 	case "star":
 		return "*"
@@ -193,7 +193,7 @@ func (it pItem) srcSQL() string {
 	}
 }
 
-func (it pItem) sql() string {
+func (it c05PItem) sql() string {
 	s := it.srcSQL()
 	if it.hasAlias {
 		if it.aliasBq {
@@ -205,7 +205,7 @@ func (it pItem) sql() string {
 	return s
 }
 
-func (it pItem) outName() string {
+func (it c05PItem) outName() string {
 	if it.hasAlias {
 		return it.alias
 	}
@@ -216,7 +216,7 @@ func (it pItem) outName() string {
 	return it.srcSQL()
 }
 
-func (it pItem) tokens() []string {
+func (it c05PItem) tokens() []string {
 	al := "-"
 	if it.hasAlias {
 		if it.aliasBq {
@@ -248,7 +248,7 @@ func (it pItem) tokens() []string {
 	}
 }
 
-func compTokens(comps []pComp) []string {
+func c05CompTokens(comps []c05PComp) []string {
 	t := []string{strconv.Itoa(len(comps))}
 	for _, c := range comps {
 		t = append(t, hx(c.name), strconv.Itoa(len(c.subs)))
@@ -263,21 +263,21 @@ func compTokens(comps []pComp) []string {
 	return t
 }
 
-// parseCompTokens reads `<n> (<name> <nsubs> (i <int> | k <hex>)*)*` and returns the rest.
-func parseCompTokens(t []string) ([]pComp, []string) {
+// c05ParseCompTokens reads `<n> (<name> <nsubs> (i <int> | k <hex>)*)*` and returns the rest.
+func c05ParseCompTokens(t []string) ([]c05PComp, []string) {
 	n, _ := strconv.Atoi(t[0])
 	t = t[1:]
-	var comps []pComp
+	var comps []c05PComp
 	for i := 0; i < n; i++ {
-		c := pComp{name: unhx(t[0])}
+		c := c05PComp{name: unhx(t[0])}
 		ns, _ := strconv.Atoi(t[1])
 		t = t[2:]
 		for j := 0; j < ns; j++ {
 			if t[0] == "i" {
 				v, _ := strconv.ParseInt(t[1], 10, 64)
-				c.subs = append(c.subs, pSub{isIdx: true, idx: v})
+				c.subs = append(c.subs, c05PSub{isIdx: true, idx: v})
 			} else {
-				c.subs = append(c.subs, pSub{key: unhx(t[1])})
+				c.subs = append(c.subs, c05PSub{key: unhx(t[1])})
 			}
 			t = t[2:]
 		}
@@ -286,7 +286,7 @@ func parseCompTokens(t []string) ([]pComp, []string) {
 	return comps, t
 }
 
-func parseAliasTok(t string, it *pItem) {
+func c05ParseAliasTok(t string, it *c05PItem) {
 	switch {
 	case t == "-":
 	case strings.HasPrefix(t, "a:"):
@@ -298,9 +298,9 @@ func parseAliasTok(t string, it *pItem) {
 	}
 }
 
-// parseItemTokens reads one `cfg item …` line (without the leading "item").
-func parseItemTokens(t []string) pItem {
-	var it pItem
+// c05ParseItemTokens reads one `cfg item …` line (without the leading "item").
+func c05ParseItemTokens(t []string) c05PItem {
+	var it c05PItem
 	it.kind = t[0]
 	switch t[0] {
 	case "star":
@@ -308,24 +308,24 @@ func parseItemTokens(t []string) pItem {
 		n, _ := strconv.Atoi(t[1])
 		t = t[2:]
 		for i := 0; i < n; i++ {
-			c := pComp{name: unhx(t[0])}
+			c := c05PComp{name: unhx(t[0])}
 			ns, _ := strconv.Atoi(t[1])
 			t = t[2:]
 			for j := 0; j < ns; j++ {
 				if t[0] == "i" {
 					v, _ := strconv.ParseInt(t[1], 10, 64)
-					c.subs = append(c.subs, pSub{isIdx: true, idx: v})
+					c.subs = append(c.subs, c05PSub{isIdx: true, idx: v})
 				} else {
-					c.subs = append(c.subs, pSub{key: unhx(t[1])})
+					c.subs = append(c.subs, c05PSub{key: unhx(t[1])})
 				}
 				t = t[2:]
 			}
 			it.comps = append(it.comps, c)
 		}
-		parseAliasTok(t[0], &it)
+		c05ParseAliasTok(t[0], &it)
 	case "bq", "lit":
 		it.text = unhx(t[1])
-		parseAliasTok(t[2], &it)
+		c05ParseAliasTok(t[2], &it)
 	default:
 		panic("bad item kind " + t[0])
 	}
@@ -334,13 +334,13 @@ func parseItemTokens(t []string) pItem {
 
 // ---------------------------------------------------------------- WHERE  <dotted col> OP <literal>
 
-type pWhere struct {
+type c05PWhere struct {
 	col []string
 	op  string
 	lit interface{}
 }
 
-func litSQL(v interface{}) string {
+func c05LitSQL(v interface{}) string {
 	switch x := v.(type) {
 	case int:
 		return strconv.Itoa(x)
@@ -352,11 +352,11 @@ func litSQL(v interface{}) string {
 	panic("bad literal")
 }
 
-func (w *pWhere) sql() string {
-	return strings.Join(w.col, ".") + " " + w.op + " " + litSQL(w.lit)
+func (w *c05PWhere) sql() string {
+	return strings.Join(w.col, ".") + " " + w.op + " " + c05LitSQL(w.lit)
 }
 
-func (w *pWhere) tokens() []string {
+func (w *c05PWhere) tokens() []string {
 	if w == nil {
 		return []string{"where", "none"}
 	}
@@ -365,30 +365,30 @@ func (w *pWhere) tokens() []string {
 		t = append(t, hx(c))
 	}
 	t = append(t, w.op)
-	return encValue(w.lit, t)
+	return c05EncValue(w.lit, t)
 }
 
-func parseWhereTokens(t []string) *pWhere {
+func c05ParseWhereTokens(t []string) *c05PWhere {
 	if t[0] == "none" {
 		return nil
 	}
 	n, _ := strconv.Atoi(t[0])
-	w := &pWhere{}
+	w := &c05PWhere{}
 	for i := 0; i < n; i++ {
 		w.col = append(w.col, unhx(t[1+i]))
 	}
 	w.op = t[1+n]
-	w.lit, _ = decValue(t[2+n:])
+	w.lit, _ = c05DecValue(t[2+n:])
 	return w
 }
 
 // ---------------------------------------------------------------- random values
 
-var topCols = []string{"a", "b", "c", "d", "e", "k1", "x_y", "Abc", "n"}
-var mapKeys = []string{"b", "k", "c", "0", "1", "zz", "d", "x_y"}
-var strPool = []string{"", "v", "str", "x y", "a:b", "m", "mm", "Z", "0", "b.c"}
+var c05TopCols = []string{"a", "b", "c", "d", "e", "k1", "x_y", "Abc", "n"}
+var c05MapKeys = []string{"b", "k", "c", "0", "1", "zz", "d", "x_y"}
+var c05StrPool = []string{"", "v", "str", "x y", "a:b", "m", "mm", "Z", "0", "b.c"}
 
-func genScalar(rng *rand.Rand) interface{} {
+func c05GenScalar(rng *rand.Rand) interface{} {
 	switch k := rng.Intn(20); {
 	case k < 3:
 		return nil
@@ -397,50 +397,50 @@ func genScalar(rng *rand.Rand) interface{} {
 	case k < 12:
 		return float64(rng.Intn(33)-8) / 4
 	case k < 17:
-		return strPool[rng.Intn(len(strPool))]
+		return c05StrPool[rng.Intn(len(c05StrPool))]
 	default:
 		return rng.Intn(2) == 0
 	}
 }
 
-func genValue(rng *rand.Rand, depth int) interface{} {
+func c05GenValue(rng *rand.Rand, depth int) interface{} {
 	if depth <= 0 {
-		return genScalar(rng)
+		return c05GenScalar(rng)
 	}
 	switch k := rng.Intn(20); {
 	case k < 7:
 		n := 1 + rng.Intn(3)
 		m := map[string]interface{}{}
 		for i := 0; i < n; i++ {
-			m[mapKeys[rng.Intn(len(mapKeys))]] = genValue(rng, depth-1)
+			m[c05MapKeys[rng.Intn(len(c05MapKeys))]] = c05GenValue(rng, depth-1)
 		}
 		return m
 	case k < 12:
 		n := rng.Intn(4)
 		l := make([]interface{}, n)
 		for i := range l {
-			l[i] = genValue(rng, depth-1)
+			l[i] = c05GenValue(rng, depth-1)
 		}
 		return l
 	default:
-		return genScalar(rng)
+		return c05GenScalar(rng)
 	}
 }
 
-func genTemplate(rng *rand.Rand) map[string]interface{} {
+func c05GenTemplate(rng *rand.Rand) map[string]interface{} {
 	row := map[string]interface{}{}
-	for _, c := range topCols {
+	for _, c := range c05TopCols {
 		if rng.Intn(4) > 0 {
-			row[c] = genValue(rng, 3)
+			row[c] = c05GenValue(rng, 3)
 		}
 	}
 	if rng.Intn(3) == 0 {
-		row["x y"] = genScalar(rng)
+		row["x y"] = c05GenScalar(rng)
 	}
 	return row
 }
 
-func sortedKeys(m map[string]interface{}) []string {
+func c05SortedKeys(m map[string]interface{}) []string {
 	ks := make([]string, 0, len(m))
 	for k := range m {
 		ks = append(ks, k)
@@ -449,24 +449,24 @@ func sortedKeys(m map[string]interface{}) []string {
 	return ks
 }
 
-// mutateValue returns a perturbed deep copy: drops keys, nulls, retypes, resizes lists.
-func mutateValue(rng *rand.Rand, v interface{}, depth int) interface{} {
+// c05MutateValue returns a perturbed deep copy: drops keys, nulls, retypes, resizes lists.
+func c05MutateValue(rng *rand.Rand, v interface{}, depth int) interface{} {
 	switch x := v.(type) {
 	case map[string]interface{}:
 		m := map[string]interface{}{}
-		for _, k := range sortedKeys(x) {
+		for _, k := range c05SortedKeys(x) {
 			switch r := rng.Intn(12); {
 			case r == 0: // drop
 			case r == 1:
 				m[k] = nil
 			case r == 2:
-				m[k] = genValue(rng, depth)
+				m[k] = c05GenValue(rng, depth)
 			default:
-				m[k] = mutateValue(rng, x[k], depth-1)
+				m[k] = c05MutateValue(rng, x[k], depth-1)
 			}
 		}
 		if rng.Intn(8) == 0 {
-			m[mapKeys[rng.Intn(len(mapKeys))]] = genValue(rng, depth-1)
+			m[c05MapKeys[rng.Intn(len(c05MapKeys))]] = c05GenValue(rng, depth-1)
 		}
 		return m
 	case []interface{}:
@@ -475,13 +475,13 @@ func mutateValue(rng *rand.Rand, v interface{}, depth int) interface{} {
 			switch r := rng.Intn(10); {
 			case r == 0:
 			case r == 1:
-				l = append(l, genValue(rng, depth-1))
+				l = append(l, c05GenValue(rng, depth-1))
 			default:
-				l = append(l, mutateValue(rng, e, depth-1))
+				l = append(l, c05MutateValue(rng, e, depth-1))
 			}
 		}
 		if rng.Intn(6) == 0 {
-			l = append(l, genValue(rng, depth-1))
+			l = append(l, c05GenValue(rng, depth-1))
 		}
 		if l == nil {
 			l = []interface{}{}
@@ -489,13 +489,13 @@ func mutateValue(rng *rand.Rand, v interface{}, depth int) interface{} {
 		return l
 	default:
 		if rng.Intn(6) == 0 {
-			return genScalar(rng)
+			return c05GenScalar(rng)
 		}
 		return v
 	}
 }
 
-func isIdentName(s string) bool {
+func c05IsIdentName(s string) bool {
 	if s == "" || (s[0] >= '0' && s[0] <= '9') {
 		return false
 	}
@@ -508,10 +508,10 @@ func isIdentName(s string) bool {
 	return true
 }
 
-// genPath walks the template (so that paths mostly hit), with random wrong turns.
-func genPath(rng *rand.Rand, tmpl map[string]interface{}, allowNeg bool) []pComp {
-	first := topCols[rng.Intn(len(topCols))]
-	comps := []pComp{{name: first}}
+// c05GenPath walks the template (so that paths mostly hit), with random wrong turns.
+func c05GenPath(rng *rand.Rand, tmpl map[string]interface{}, allowNeg bool) []c05PComp {
+	first := c05TopCols[rng.Intn(len(c05TopCols))]
+	comps := []c05PComp{{name: first}}
 	var cur interface{} = tmpl[first]
 	steps := rng.Intn(4)
 	for i := 0; i < steps; i++ {
@@ -519,18 +519,18 @@ func genPath(rng *rand.Rand, tmpl map[string]interface{}, allowNeg bool) []pComp
 		wrong := rng.Intn(7) == 0
 		switch x := cur.(type) {
 		case map[string]interface{}:
-			ks := sortedKeys(x)
-			k := mapKeys[rng.Intn(len(mapKeys))]
+			ks := c05SortedKeys(x)
+			k := c05MapKeys[rng.Intn(len(c05MapKeys))]
 			if len(ks) > 0 && !wrong {
 				k = ks[rng.Intn(len(ks))]
 			}
 			cur = x[k]
 			if n, err := strconv.Atoi(k); err == nil && rng.Intn(2) == 0 {
-				last.subs = append(last.subs, pSub{isIdx: true, idx: int64(n)}) // a[0] on a map with key "0"
-			} else if isIdentName(k) && rng.Intn(3) > 0 {
-				comps = append(comps, pComp{name: k})
+				last.subs = append(last.subs, c05PSub{isIdx: true, idx: int64(n)}) // a[0] on a map with key "0"
+			} else if c05IsIdentName(k) && rng.Intn(3) > 0 {
+				comps = append(comps, c05PComp{name: k})
 			} else {
-				last.subs = append(last.subs, pSub{key: k})
+				last.subs = append(last.subs, c05PSub{key: k})
 			}
 		case []interface{}:
 			idx := int64(rng.Intn(5)) - 2
@@ -552,20 +552,20 @@ func genPath(rng *rand.Rand, tmpl map[string]interface{}, allowNeg bool) []pComp
 			} else {
 				cur = nil
 			}
-			last.subs = append(last.subs, pSub{isIdx: true, idx: idx})
+			last.subs = append(last.subs, c05PSub{isIdx: true, idx: idx})
 		default:
 			// scalar / NULL / missing: keep walking into nothing
 			switch rng.Intn(3) {
 			case 0:
-				comps = append(comps, pComp{name: mapKeys[rng.Intn(3)]})
+				comps = append(comps, c05PComp{name: c05MapKeys[rng.Intn(3)]})
 			case 1:
 				j := int64(rng.Intn(3)) - 1
 				if !allowNeg && j < 0 {
 					j = 2
 				}
-				last.subs = append(last.subs, pSub{isIdx: true, idx: j})
+				last.subs = append(last.subs, c05PSub{isIdx: true, idx: j})
 			default:
-				last.subs = append(last.subs, pSub{key: mapKeys[rng.Intn(len(mapKeys))]})
+				last.subs = append(last.subs, c05PSub{key: c05MapKeys[rng.Intn(len(c05MapKeys))]})
 			}
 			cur = nil
 		}
@@ -573,25 +573,25 @@ func genPath(rng *rand.Rand, tmpl map[string]interface{}, allowNeg bool) []pComp
 	return comps
 }
 
-var aliasPool = []string{"x", "y", "out", "a", "b", "A1", "r_1", "q"}
-var litPool = []string{"lit", "", "a b", "i:q", "b.c", "x-y", "a", "ok", "7", "a:b:c"}
+var c05AliasPool = []string{"x", "y", "out", "a", "b", "A1", "r_1", "q"}
+var c05LitPool = []string{"lit", "", "a b", "i:q", "b.c", "x-y", "a", "ok", "7", "a:b:c"}
 
-func genItem(rng *rand.Rand, tmpl map[string]interface{}) pItem {
-	var it pItem
+func c05GenItem(rng *rand.Rand, tmpl map[string]interface{}) c05PItem {
+	var it c05PItem
 	switch k := rng.Intn(20); {
 	case k < 13:
 		it.kind = "path"
-		it.comps = genPath(rng, tmpl, false)
+		it.comps = c05GenPath(rng, tmpl, false)
 	case k < 15:
 		it.kind = "bq"
 		it.text = []string{"x y", "a", "k1", "Abc", "no such"}[rng.Intn(5)]
 	default:
 		it.kind = "lit"
-		it.text = litPool[rng.Intn(len(litPool))]
+		it.text = c05LitPool[rng.Intn(len(c05LitPool))]
 	}
 	if rng.Intn(5) < 2 {
 		it.hasAlias = true
-		it.alias = aliasPool[rng.Intn(len(aliasPool))]
+		it.alias = c05AliasPool[rng.Intn(len(c05AliasPool))]
 		if it.kind != "lit" && rng.Intn(5) == 0 {
 			it.aliasBq = true
 			it.alias = []string{"x y", "out", "a b c"}[rng.Intn(3)]
@@ -600,8 +600,8 @@ func genItem(rng *rand.Rand, tmpl map[string]interface{}) pItem {
 	return it
 }
 
-// setPath stores v at the dotted column path, creating maps on the way; del removes the leaf.
-func setPath(row map[string]interface{}, col []string, v interface{}, del bool) {
+// c05SetPath stores v at the dotted column path, creating maps on the way; del removes the leaf.
+func c05SetPath(row map[string]interface{}, col []string, v interface{}, del bool) {
 	cur := row
 	for i := 0; i < len(col)-1; i++ {
 		next, ok := cur[col[i]].(map[string]interface{})
@@ -618,7 +618,7 @@ func setPath(row map[string]interface{}, col []string, v interface{}, del bool) 
 	}
 }
 
-func getPath(row map[string]interface{}, col []string) (interface{}, bool) {
+func c05GetPath(row map[string]interface{}, col []string) (interface{}, bool) {
 	var cur interface{} = row
 	for _, c := range col {
 		m, ok := cur.(map[string]interface{})
@@ -633,15 +633,15 @@ func getPath(row map[string]interface{}, col []string) (interface{}, bool) {
 	return cur, true
 }
 
-func genWhere(rng *rand.Rand, tmpl map[string]interface{}) *pWhere {
-	w := &pWhere{}
-	w.col = []string{topCols[rng.Intn(len(topCols))]}
+func c05GenWhere(rng *rand.Rand, tmpl map[string]interface{}) *c05PWhere {
+	w := &c05PWhere{}
+	w.col = []string{c05TopCols[rng.Intn(len(c05TopCols))]}
 	if rng.Intn(3) == 0 { // nested dotted column through maps of the template
 		cur, _ := tmpl[w.col[0]].(map[string]interface{})
 		for d := 0; d < 2; d++ {
 			var cand []string
-			for _, k := range sortedKeys(cur) {
-				if isIdentName(k) {
+			for _, k := range c05SortedKeys(cur) {
+				if c05IsIdentName(k) {
 					cand = append(cand, k)
 				}
 			}
@@ -669,8 +669,8 @@ func genWhere(rng *rand.Rand, tmpl map[string]interface{}) *pWhere {
 	return w
 }
 
-// whereValue picks a value of the literal's type around the literal (boundaries are frequent).
-func whereValue(rng *rand.Rand, w *pWhere) interface{} {
+// c05WhereValue picks a value of the literal's type around the literal (boundaries are frequent).
+func c05WhereValue(rng *rand.Rand, w *c05PWhere) interface{} {
 	switch l := w.lit.(type) {
 	case int:
 		if rng.Intn(3) == 0 {
@@ -688,8 +688,8 @@ func whereValue(rng *rand.Rand, w *pWhere) interface{} {
 	return nil
 }
 
-// satisfying returns a column value that makes `col OP lit` true.
-func satisfying(w *pWhere) interface{} {
+// c05Satisfying returns a column value that makes `col OP lit` true.
+func c05Satisfying(w *c05PWhere) interface{} {
 	switch l := w.lit.(type) {
 	case int:
 		switch w.op {
@@ -719,25 +719,25 @@ func satisfying(w *pWhere) interface{} {
 	return nil
 }
 
-// applyWhereColumn keeps WHERE inside the forms the property's text covers without appeal to C06:
+// c05ApplyWhereColumn keeps WHERE inside the forms the property's text covers without appeal to C06:
 // the compared column has the literal's type, or (never for !=) is NULL / missing.
-func applyWhereColumn(rng *rand.Rand, w *pWhere, row map[string]interface{}) string {
+func c05ApplyWhereColumn(rng *rand.Rand, w *c05PWhere, row map[string]interface{}) string {
 	if w == nil {
 		return "where-none"
 	}
 	k := rng.Intn(10)
 	if w.op == "!=" || k < 8 {
-		setPath(row, w.col, whereValue(rng, w), false)
+		c05SetPath(row, w.col, c05WhereValue(rng, w), false)
 		return "where-typed"
 	}
 	if k == 8 {
-		setPath(row, w.col, nil, false)
+		c05SetPath(row, w.col, nil, false)
 		return "where-null"
 	}
 	if len(w.col) > 1 && rng.Intn(2) == 0 {
 		row[w.col[0]] = nil // the parent itself is NULL
 		return "where-parent-null"
 	}
-	setPath(row, w.col, nil, true)
+	c05SetPath(row, w.col, nil, true)
 	return "where-missing"
 }
